@@ -155,6 +155,7 @@ type Report struct {
 	assumptions  []string
 	trusted      []string
 	replays      map[string]string
+	vacChecks    int
 	canaryOK     int
 	canaryTotal  int
 }
@@ -232,8 +233,15 @@ func buildReport(eng *Engine, prop, tier string, units []*UnitResult, verifDir s
 		for _, n := range u.Notes {
 			r.assumptions = append(r.assumptions, u.Key+": "+n)
 		}
+		if u.VacuityUnknown {
+			r.assumptions = append(r.assumptions, u.Key+": satisfiability of the precondition not confirmed by a solver (unknown)")
+		}
 		for _, o := range u.Obls {
 			if prop != "" && !hasTag(o.Tags, prop) {
+				continue
+			}
+			if o.Kind == "vacuity" {
+				r.vacChecks++
 				continue
 			}
 			no := byName[o.Name]
@@ -449,6 +457,7 @@ func (r *Report) writeEvidence(path string) {
 			"samples":                     samples,
 			"all_obligations":             allObl,
 			"canaries_failed_as_required": fmt.Sprintf("%d/%d", r.canaryOK, r.canaryTotal),
+			"vacuity_checks":              r.vacChecks,
 			"known_findings":              r.known,
 			"undecided":                   r.undecided,
 			"explanation":                 "each named obligation aggregates its instances over all symbolic paths of the function; discharged means every instance returned unsat from at least one solver",
